@@ -10,7 +10,6 @@ package core
 import (
 	"fmt"
 	"math/big"
-	"sort"
 
 	"pgregory.net/rapid"
 )
@@ -387,7 +386,7 @@ func c02GenScale(t *rapid.T, n int) c02Scale {
 	// every single value is bounded by Hi; with n <= 8 values per sum the sums of requests and of
 	// minimums each stay <= 2^61 and total <= 2^62+2^61, so nothing in koordinator's int64 arithmetic
 	// can overflow (precondition: quantities of one parent fit in int64 — apiserver Quantities do).
-	scales := []c02Scale{{"tiny", 8}, {"tiny", 8}, {"small", 100}, {"milli", 1_000_000}, {"mem-2^40", 1 << 40}, {"huge-2^61", (1 << 61) / int64(n)}}
+	scales := []c02Scale{{"tiny", 8}, {"small", 100}, {"milli", 1_000_000}, {"mem-2^40", 1 << 40}, {"mem-2^40", 1 << 40}, {"huge-2^61", (1 << 61) / int64(n)}, {"huge-2^61", (1 << 61) / int64(n)}}
 	return rapid.SampledFrom(scales).Draw(t, "scale")
 }
 
@@ -528,10 +527,4 @@ func c02GenDim(t *rapid.T, names []string, lent []bool, label string) ([]c02Sib,
 		total = c02Max64(0, sumEff-1)
 	}
 	return sibs, total, sc.Name
-}
-
-func c02SortedByName(sibs []c02Sib) []c02Sib {
-	out := append([]c02Sib(nil), sibs...)
-	sort.Slice(out, func(i, j int) bool { return out[i].Name < out[j].Name })
-	return out
 }
